@@ -645,7 +645,138 @@ def op_sleep(args):
     return 'ok'
 
 
-OPS = {'ser': op_ser, 'des': op_des, 'meta': op_meta, 'set': op_set, 'builtin': op_builtin, 'model': op_model,
+# ------------------------------------------------------------------------------------------------------------------
+# histories: several calls in ONE process with earlier results kept alive (object aliasing across calls)
+# ------------------------------------------------------------------------------------------------------------------
+
+def _arrays_of(x, acc, depth=0):
+    """every numpy array reachable from a generated object (fields, nested composites, arrays of composites)"""
+    if depth > 12:
+        return
+    if isinstance(x, np.ndarray):
+        if x.dtype == object:
+            for e in x.flat:
+                _arrays_of(e, acc, depth + 1)
+        else:
+            acc.append(x)
+        return
+    if isinstance(x, (list, tuple)):
+        for e in x:
+            _arrays_of(e, acc, depth + 1)
+        return
+    d = getattr(x, '__dict__', None)
+    if d is not None and type(x).__module__ not in ('builtins', 'numpy'):
+        for v in d.values():
+            _arrays_of(v, acc, depth + 1)
+
+
+def op_hist(args):
+    """hist <step> ;; <step> ;; ...   -> `ok ;; <answer of step 1> ;; <answer of step 2> ...`
+    Everything a step produces stays referenced until the end of the history (decoded objects, their input buffers, the
+    fragments serialize() returned - NOT copied), so that aliasing between calls becomes observable.
+      des <tid> <hex|-> <name>        deserialize, keep the object as <name>                -> ok - <tokens>
+      ser <tid> <name> <tokens...>    build the object from tokens, serialize, keep the returned fragments as <name> and the
+                                      object as <name>.obj                                  -> ok <size> <hex>
+      reser <obj> <name>              serialize a kept object again, keep the fragments     -> ok <size> <hex>
+      frag <name>                     read the kept fragments of an EARLIER serialize again -> ok <size> <hex>
+      desfrag <tid> <frag> <name>     deserialize from kept fragments (zero-copy views), keep -> ok - <tokens>
+      dump <obj>                      dump a kept object again                              -> ok - <tokens>
+      mutate <obj>                    overwrite in place every writeable numpy array reachable from a kept object (the caller
+                                      owns the object it was handed)                        -> ok <arrays written>"""
+    steps, cur = [], []
+    for a in args:
+        if a == ';;':
+            steps.append(cur)
+            cur = []
+        else:
+            cur.append(a)
+    if cur:
+        steps.append(cur)
+    kept = {}
+    alive = []
+    out = ['ok']
+
+    def ser_keep(obj, name):
+        with np.errstate(all='ignore'):
+            frags = list(ns.serialize(obj))
+        kept[name] = frags
+        alive.append(frags)
+        data = b''.join(bytes(f) for f in frags)
+        return 'ok %d %s' % (len(data), hex_or_dash(data))
+
+    for st in steps:
+        try:
+            op = st[0]
+            if op == 'des':
+                tid, hx, name = st[1], st[2], st[3]
+                data = bytearray() if hx == '-' else bytearray.fromhex(hx)
+                alive.append(data)
+                with np.errstate(all='ignore'):
+                    obj = ns.deserialize(get_cls(tid), [memoryview(data)])
+                if obj is None:
+                    out.append('err format')
+                    continue
+                kept[name] = obj
+                toks = []
+                dump_obj(tid, obj, toks)
+                kept[name + '.tid'] = tid
+                out.append(' '.join(['ok', '-'] + toks))
+            elif op == 'ser':
+                tid, name = st[1], st[2]
+                v = parse_all(parse_comp, TYPES[tid], st[3:])
+                obj = build_obj(tid, v)
+                kept[name + '.obj'] = obj
+                kept[name + '.obj.tid'] = tid
+                out.append(ser_keep(obj, name))
+            elif op == 'reser':
+                out.append(ser_keep(kept[st[1]], st[2]))
+            elif op == 'frag':
+                data = b''.join(bytes(f) for f in kept[st[1]])
+                out.append('ok %d %s' % (len(data), hex_or_dash(data)))
+            elif op == 'desfrag':
+                tid, fname, name = st[1], st[2], st[3]
+                with np.errstate(all='ignore'):
+                    obj = ns.deserialize(get_cls(tid), kept[fname])
+                if obj is None:
+                    out.append('err format')
+                    continue
+                kept[name] = obj
+                kept[name + '.tid'] = tid
+                toks = []
+                dump_obj(tid, obj, toks)
+                out.append(' '.join(['ok', '-'] + toks))
+            elif op == 'dump':
+                toks = []
+                dump_obj(kept[st[1] + '.tid'], kept[st[1]], toks)
+                out.append(' '.join(['ok', '-'] + toks))
+            elif op == 'mutate':
+                arrs = []
+                _arrays_of(kept[st[1]], arrs)
+                n = 0
+                for a in arrs:
+                    try:
+                        if a.dtype == np.bool_:
+                            a[...] = True
+                        elif a.dtype.kind == 'f':
+                            a[...] = 1.5
+                        else:
+                            a[...] = np.iinfo(a.dtype).max
+                        n += 1
+                    except (ValueError, TypeError):     # read-only view: nothing the caller can do to it
+                        pass
+                out.append('ok %d' % n)
+            else:
+                raise BadRequest('unknown history step %s' % op)
+        except Rejected as r:
+            out.append('err rejected %s %s' % (r.exc_type, one_line(r.text)))
+        except BadRequest:
+            raise
+        except Exception as ex:  # noqa: BLE001
+            out.append('err invalid_arg raised:%s %s' % (type(ex).__name__, one_line(ex)))
+    return ' ;; '.join(out)
+
+
+OPS = {'hist': op_hist, 'ser': op_ser, 'des': op_des, 'meta': op_meta, 'set': op_set, 'builtin': op_builtin, 'model': op_model,
        'ping': lambda args: 'ok'}
 
 
